@@ -410,16 +410,19 @@ func ipv4AddrsDecoder(r io.Reader, val interface{}, _ *[8]byte,
 			port     [2]byte
 		)
 		for len(addrs) < numAddrs {
-			_, err := r.Read(ip[:])
+			_, err := io.ReadFull(r, ip[:])
 			if err != nil {
 				return err
 			}
-			_, err = r.Read(port[:])
+			_, err = io.ReadFull(r, port[:])
 			if err != nil {
 				return err
 			}
+
+			// Each address needs its own copy of the IP bytes:
+			// the buffer is reused for the next entry.
 			addrs = append(addrs, &net.TCPAddr{
-				IP:   ip[:],
+				IP:   append(net.IP(nil), ip[:]...),
 				Port: int(binary.BigEndian.Uint16(port[:])),
 			})
 		}
@@ -490,16 +493,19 @@ func ipv6AddrsDecoder(r io.Reader, val interface{}, _ *[8]byte,
 			port     [2]byte
 		)
 		for len(addrs) < numAddrs {
-			_, err := r.Read(ip[:])
+			_, err := io.ReadFull(r, ip[:])
 			if err != nil {
 				return err
 			}
-			_, err = r.Read(port[:])
+			_, err = io.ReadFull(r, port[:])
 			if err != nil {
 				return err
 			}
+
+			// Each address needs its own copy of the IP bytes:
+			// the buffer is reused for the next entry.
 			addrs = append(addrs, &net.TCPAddr{
-				IP:   ip[:],
+				IP:   append(net.IP(nil), ip[:]...),
 				Port: int(binary.BigEndian.Uint16(port[:])),
 			})
 		}
